@@ -81,6 +81,7 @@ def handle (st : DState) (line : String) : DState × String :=
             | some nodes => (st, s!"same={b (a == real)} wf={b (wfb real)} specok={b (Spec.describe real == Xml.dataModel nodes)}")
             | none => (st, "bad-xdoc")
           | _ => (st, s!"same={b (a == real)} wf={b (wfb real)}")
+  | some (.list [.atom "fuzz"]) => (st, "ok")
   | some (.list [.atom "storemodel", .list (.atom "evs" :: evs)]) =>
     match evs.mapM decEv with
     | some es => (st, s!"arena={encArena (Store.build es)}")
